@@ -398,6 +398,11 @@ func init() {
 		if c.P("big", "0") == "1" {
 			sizes = append(sizes, 16401)
 		}
+		if c.P("big", "0") == "2" {
+			// beyond what Cloak itself sends, up to exactly the reader's buffer (the write buffer of the
+			// connection is 16480 bytes, the multiplexer's default message limit 16640, its read buffer 20480)
+			sizes = []int{16480, 16481, 16640, 20479, 20480}
+		}
 		var msgs [][]byte
 		for i, s := range sizes {
 			msgs = append(msgs, c05Msg(i, s))
@@ -437,6 +442,9 @@ func init() {
 			if c.P("big", "0") == "1" && p > 600 && p < len(stream)-600 && p%97 != 0 {
 				continue
 			}
+			if c.P("big", "0") == "2" && p%1009 != 0 && p%16480 > 8 && p%16480 < 16472 {
+				continue
+			}
 			cuts := []int{p}
 			if p == 0 {
 				cuts = nil
@@ -458,6 +466,28 @@ func init() {
 			if len(rep.Violations) > 0 {
 				break
 			}
+		}
+		// 2b. the connection dies after p bytes of the stream: whatever Read returns without error is one
+		// whole message; the message the cut falls into comes back as an error, never as a shorter message
+		for p := 0; p < len(stream) && len(rep.Violations) == 0; p++ {
+			if c.P("big", "0") != "0" && p > 600 && p < len(stream)-600 && p%97 != 0 {
+				continue
+			}
+			r := &WebSocketConn{Conn: websocketClientOver(&scriptConn{stream: stream[:p]})}
+			buf := make([]byte, 20480)
+			for i, m := range msgs {
+				k, err := r.Read(buf)
+				rep.Transitions++
+				if err != nil {
+					break
+				}
+				if !bytes.Equal(buf[:k], m) {
+					rep.Violations = append(rep.Violations, vx.Violation{Clause: "one-write-one-read", Sig: vx.Sig(c.Job, "one-write-one-read"), Msg: fmt.Sprintf("connection lost after %d of %d stream bytes: message %d (%d bytes written) was delivered without error as %d bytes", p, len(stream), i, len(m), k)})
+					rep.Exhaustive = false
+					break
+				}
+			}
+			rep.Executions++
 		}
 		// 3. a message larger than the reader's buffer is an error, not a truncated delivery
 		sc := &scriptConn{stream: stream}
@@ -568,6 +598,7 @@ func init() {
 			{Scenario: "hs.serverfirst", Params: vx.P("browser", "chrome", "seg", "0", "method", "aes-256-gcm"), Bound: 2, BudgetS: 100, Weight: 6},
 			{Scenario: "ws.segment", Weight: 4},
 			{Scenario: "ws.segment", Params: vx.P("big", "1"), Weight: 6},
+			{Scenario: "ws.segment", Params: vx.P("big", "2"), Weight: 6},
 		}
 		if q {
 			jobs = append(jobs, vx.Job{Scenario: "tls.segment", Params: vx.P("maxtotal", "16", "msgs", "3"), Weight: 6})
